@@ -363,4 +363,3 @@ func flowMain(args mon.Args, prop, proto string) {
 	run.Assume("fixtures/iana_ipfix_snapshot.tsv is the reference type table (C20 ties it to both in-repo tables)")
 	run.Finish()
 }
-
